@@ -45,8 +45,8 @@ def step (d : DSt) (toks : List String) : DSt × List String :=
     | some id, some key, some play, some force, some f, some t, some now =>
       let (s', out) := opGet s id key play (force != 0) f t now
       match out with
-      | .bad => finishOp [s!"req {id} bad"] s'
-      | .empty => finishOp [s!"req {id} empty"] s'
+      | .bad => finishOp [s!"req {id} bad", s!"done {id} err"] s'
+      | .empty => finishOp [s!"req {id} empty", s!"done {id} ok -"] s'
       | .started l =>
         match l.chunks.head?, l.chunks.getLast? with
         | some a, some b =>
